@@ -4,7 +4,7 @@ import traceback
 
 from . import base
 
-MODULES = ['flags', 'chain', 'core', 'globc', 'matchc', 'walkc']
+MODULES = ['flags', 'chain', 'core', 'globc', 'matchc', 'walkc', 'more']
 
 
 def all_contracts():
